@@ -58,6 +58,12 @@ func NewInverseWishartDistribution(nu Scalar, s Matrix) (*InverseWishartDistribu
   if err != nil {
     return nil, err
   }
+  if !(sDet.GetFloat64() > 0.0) {
+    return nil, fmt.Errorf("NewInverseWishartDistribution(): S is not positive definite!")
+  }
+  if !(nu.GetFloat64() > float64(n) - 1.0) {
+    return nil, fmt.Errorf("NewInverseWishartDistribution(): nu must be greater than dim(S)-1")
+  }
   d := NewScalar(t, float64(n))
   // negative log partition function
   z := NewScalar(t, 0.0)
